@@ -62,3 +62,261 @@ Proof.
 Qed.
 
 End FaultResumeProofs.
+
+(* ==========================================================================================
+   The whole fault alphabet (Model/FaultResume.v fr_exchange): SIZE line, HASH records, answers. *)
+Lemma resume_rest_guard_src_ok : Consts.c02_resume_rest_guard = 2%N. Proof. reflexivity. Qed.
+(* the cut at the receiver's offset: unconditional (1, what the pinned source has), or made only when the
+   existing file is longer than the size the receiver works with (2): shown below to give the same outcome
+   for everything that can be delivered (fr_cut_condition_irrelevant), so either is accepted here *)
+Lemma resume_truncates_src_ok : ((Consts.c02_resume_truncates =? 1) || (Consts.c02_resume_truncates =? 2))%N = true.
+Proof. reflexivity. Qed.
+
+Section FaultExchange.
+Variable B : N.
+Variable H : list byte -> digest.
+Variables src dst : list byte.
+
+(* the digest hypotheses, as everywhere in C02 / C08:
+   - injective where it is compared: a prefix of the source against a prefix of the destination;
+   - unforged: every digest a delivered HASH record carries is the digest of SOME prefix of the source
+     (the step in front of it may be damaged, records may be lost, doubled, reordered) *)
+Definition fx_injective : Prop := forall k m, H (firstn k src) = H (firstn m dst) -> firstn k src = firstn m dst.
+Definition fx_unforged (hs : list hmsg) : Prop := forall step h, In (Hash step h) hs -> exists k, h = H (firstn k src).
+
+(* receiver invariant over ANY list of delivered records *)
+Definition rinv (st : rstate) : Prop :=
+  (0 <= r_mstep st <= Z.of_nat (length dst))%Z /\
+  (r_mstep st = 0%Z \/ exists k, H (firstn k src) = H (firstn (Z.to_nat (r_mstep st)) dst)) /\
+  (r_match st = true -> r_mstep st = Z.of_nat (r_off st) /\ r_fed st = firstn (r_off st) dst).
+
+Lemma recv_hashes_inv : forall msgs st st', fx_unforged msgs -> rinv st ->
+  recv_hashes B H dst msgs st = ROver st' -> rinv st'.
+Proof.
+  induction msgs as [|m msgs IH]; intros st st' U I0 R; cbn [recv_hashes] in R; [discriminate|].
+  destruct m as [hstep h|]; [|inversion R; subst; exact I0].
+  assert (U' : fx_unforged msgs) by (intros s' h' In'; apply (U s' h'); right; exact In').
+  destruct (negb (r_match st)) eqn:Nm; [exact (IH st st' U' I0 R)|].
+  apply negb_false_iff in Nm. destruct I0 as (Bd & Good & Im). destruct (Im Nm) as [Eo Ef].
+  rewrite step_guard_src_ok in R. cbn [andb] in R.
+  destruct ((hstep - r_mstep st <=? 0)%Z || (Z.of_N B <? hstep - r_mstep st)%Z) eqn:G; [discriminate|].
+  apply orb_false_iff in G. destruct G as [G1 _]. apply Z.leb_gt in G1.
+  destruct (hstep - r_mstep st <? 0)%Z; [discriminate|].
+  destruct (Z.of_nat (r_off st) + (hstep - r_mstep st) <=? Z.of_nat (length dst))%Z eqn:Le; [|discriminate].
+  apply Z.leb_le in Le.
+  set (n := Z.to_nat (hstep - r_mstep st)) in *.
+  assert (Efed : r_fed st ++ firstn n (skipn (r_off st) dst) = firstn (r_off st + n) dst).
+  { rewrite Ef. apply firstn_app_skipn. }
+  rewrite Efed in R.
+  refine (IH _ st' U' _ R). clear R IH.
+  assert (En : Z.of_nat (r_off st + n) = hstep) by (unfold n; lia).
+  destruct (list_eqb h (H (firstn (r_off st + n) dst))) eqn:M; unfold rinv; cbn [r_mstep r_match r_off r_fed].
+  - split; [lia|]. split.
+    + right. destruct (U hstep h (or_introl eq_refl)) as [k Ek]. exists k. apply list_eqb_eq in M.
+      rewrite <- Ek, M. f_equal. f_equal. lia.
+    + intros _. split; [lia | reflexivity].
+  - split; [exact Bd|]. split; [exact Good | discriminate].
+Qed.
+
+Lemma rinv_init : rinv r_init.
+Proof. unfold rinv, r_init. cbn. split; [lia|]. split; [left; reflexivity|]. intros _. split; reflexivity. Qed.
+
+(* what the receiver's offset is worth: the destination and the source agree up to it, and it does not
+   exceed the source *)
+Lemma rinv_prefix st : fx_injective -> rinv st ->
+  firstn (Z.to_nat (r_mstep st)) dst = firstn (Z.to_nat (r_mstep st)) src /\ (r_mstep st <= Z.of_nat (length src))%Z.
+Proof.
+  intros Inj (Bd & [E0|[k Ek]] & _).
+  - rewrite E0. cbn. split; [reflexivity | lia].
+  - set (m := Z.to_nat (r_mstep st)) in *. assert (Hm : (m <= length dst)%nat) by (unfold m; lia).
+    pose proof (Inj k m Ek) as E. assert (L : length (firstn k src) = m) by (rewrite E, firstn_length; lia).
+    rewrite firstn_length in L.
+    destruct (Nat.le_ge_cases k (length src)) as [Hk|Hk].
+    + rewrite Nat.min_l in L by exact Hk. subst k. split; [symmetry; exact E | unfold m in *; lia].
+    + rewrite Nat.min_r in L by exact Hk. split; [|unfold m in *; lia].
+      rewrite <- E. rewrite firstn_all2 by exact Hk. rewrite <- L. symmetry. apply firstn_all.
+Qed.
+
+Lemma fr_final_cut : forall m off sent, (m <= length dst)%nat ->
+  f_data (f_write (f_truncate (f_seek (mkFile dst off) m) m) sent) = firstn m dst ++ sent.
+Proof.
+  intros m off sent Hm. unfold f_write, f_truncate, f_seek. cbn [f_data f_off].
+  replace (m - length dst)%nat with O by lia. cbn [repeat]. rewrite app_nil_r.
+  rewrite firstn_firstn, Nat.min_id, firstn_length.
+  replace (m - Nat.min m (length dst))%nat with O by lia. cbn [repeat app].
+  rewrite skipn_all2 by (rewrite firstn_length; lia). rewrite app_nil_r. reflexivity.
+Qed.
+
+(* THE theorem, for the guard ">= 0" and the unconditional cut (what the code has: the two _src_ok
+   lemmas above) and EITHER treatment of the hash-phase SIZE line.  Whatever SIZE line, HASH records
+   and answers are delivered - for EVERY relation between the existing destination and the source
+   (absent / empty: dst = []; proper prefix, identical, longer with the same prefix, longer or shorter
+   and diverging: any dst) - if the exchange completes, the destination afterwards IS the source.
+   Premise on the size the receiver works with: protocol 4 (NAME record), or the hash-phase SIZE line
+   was delivered as sent.  The boundary rest = 0 (the receiver keeps the whole destination) is inside:
+   the guard compares whenever the remembered rest is >= 0. *)
+Theorem fr_exchange_identical_gen sizeck proto4 d o :
+  fx_injective -> fx_unforged (fd_hashes d) ->
+  proto4 = true \/ fd_size d = Z.of_nat (length src) ->
+  fr_exchange B H 2 1 sizeck proto4 src dst d = Some o ->
+  fo_mrecv o = fo_msend o /\ fo_final o = src.
+Proof.
+  intros Inj U Sz. unfold fr_exchange.
+  destruct dst as [|b0 dst0] eqn:Ed.
+  - destruct (fr_is_nil (fd_hashes d) && fr_is_nil (fd_answers d)); [|discriminate].
+    intro E. inversion E; subst o. cbn [fo_mrecv fo_msend fo_final]. split; [reflexivity|].
+    unfold f_write. cbn [f_data f_off firstn length repeat app Nat.sub]. rewrite skipn_nil, app_nil_r. reflexivity.
+  - rewrite <- Ed in *.
+    assert (Es : (if proto4 then Z.of_nat (length src) else fd_size d) = Z.of_nat (length src)).
+    { destruct Sz as [->| ->]; [reflexivity | destruct proto4; reflexivity]. }
+    rewrite Es.
+    destruct ((sizeck =? 1)%N && negb proto4 && (0 <? Z.of_nat (length src))%Z && negb (Z.of_nat (length src) =? Z.of_nat (length src))%Z);
+      [discriminate|].
+    destruct (recv_hashes B H dst (fd_hashes d) r_init) as [st| | | |] eqn:R; try discriminate.
+    destruct (negb (fr_is_nil (fr_after_over (fd_hashes d)))); [discriminate|].
+    destruct (fr_recv_hash_acks (Z.of_nat (Nat.min (length src) (length dst))) (fd_answers d)) as [[ms| |] [|a l]]; try discriminate.
+    destruct (ms <? 0)%Z eqn:Neg; [discriminate|]. apply Z.ltb_ge in Neg.
+    pose proof (recv_hashes_inv _ _ _ U rinv_init R) as Iv.
+    destruct (rinv_prefix st Inj Iv) as [Pf Le]. destruct Iv as (Bd & _ & _).
+    destruct ((sizeck =? 1)%N && (Z.of_nat (length src) - r_mstep st <? 0)%Z); [discriminate|].
+    cbn [N.eqb Pos.eqb].
+    destruct (0 <=? Z.of_nat (length src) - r_mstep st)%Z eqn:Ck; [|apply Z.leb_gt in Ck; lia].
+    cbn [andb].
+    destruct (Z.of_nat (length src) - ms =? Z.of_nat (length src) - r_mstep st)%Z eqn:Eq; [|discriminate].
+    apply Z.eqb_eq in Eq. cbn [negb]. rewrite fr_final_cut by lia. intro E. injection E as <-. cbn [fo_mrecv fo_msend fo_final].
+    assert (Em : ms = r_mstep st) by lia. split; [symmetry; exact Em|]. subst ms.
+    rewrite Pf. apply firstn_skipn.
+Qed.
+
+(* with the SIZE line compared against the NAME record (sizeck = 1) the premise on the size is not needed:
+   protocol 3 included, ANY delivered SIZE line *)
+Lemma fr_exchange_sizeck_size d o :
+  fx_injective -> fx_unforged (fd_hashes d) -> dst <> [] ->
+  fr_exchange B H 2 1 1 false src dst d = Some o -> fd_size d = Z.of_nat (length src).
+Proof.
+  intros Inj U Ne. unfold fr_exchange. destruct dst as [|b0 dst0] eqn:Ed; [contradiction|]. rewrite <- Ed in *.
+  cbn [N.eqb Pos.eqb negb andb].
+  destruct (0 <? Z.of_nat (length src))%Z eqn:Ps.
+  - destruct (Z.eqb_spec (fd_size d) (Z.of_nat (length src))) as [E|_]; [intros _; exact E | discriminate].
+  - (* the source is empty: the receiver's offset is 0, the sender announces 0, the guard compares *)
+    apply Z.ltb_ge in Ps. cbn [negb andb].
+    destruct (recv_hashes B H dst (fd_hashes d) r_init) as [st| | | |] eqn:R; try discriminate.
+    destruct (negb (fr_is_nil (fr_after_over (fd_hashes d)))); [discriminate|].
+    destruct (fr_recv_hash_acks (Z.of_nat (Nat.min (length src) (length dst))) (fd_answers d)) as [[ms| |] [|a l]] eqn:Ra; try discriminate.
+    destruct (ms <? 0)%Z eqn:Neg; [discriminate|]. apply Z.ltb_ge in Neg.
+    pose proof (recv_hashes_inv _ _ _ U rinv_init R) as Iv.
+    destruct (rinv_prefix st Inj Iv) as [_ Le]. destruct Iv as (Bd & _ & _).
+    assert (L0 : length src = O) by lia. rewrite L0 in *. cbn [Nat.min] in Ra.
+    unfold fr_recv_hash_acks in Ra. cbn [Z.of_nat Z.eqb] in Ra. inversion Ra; subst ms.
+    destruct (fd_size d - r_mstep st <? 0)%Z eqn:Ng; [discriminate|]. apply Z.ltb_ge in Ng.
+    destruct (0 <=? fd_size d - r_mstep st)%Z eqn:Ck; [|apply Z.leb_gt in Ck; lia].
+    cbn [andb]. destruct (Z.eqb_spec (Z.of_nat 0 - 0) (fd_size d - r_mstep st)) as [E|_]; [|discriminate].
+    intros _. cbn in E. lia.
+Qed.
+
+Theorem fr_exchange_identical_sizeck proto4 d o :
+  fx_injective -> fx_unforged (fd_hashes d) ->
+  fr_exchange B H 2 1 1 proto4 src dst d = Some o ->
+  fo_mrecv o = fo_msend o /\ fo_final o = src.
+Proof.
+  intros Inj U R.
+  destruct proto4; [exact (fr_exchange_identical_gen 1 true d o Inj U (or_introl eq_refl) R)|].
+  destruct dst as [|b0 dst0] eqn:Ed.
+  - (* no exchange: the outcome does not depend on what was delivered as the SIZE line *)
+    apply (fr_exchange_identical_gen 1 false (mkFrDeliv (Z.of_nat (length src)) (fd_hashes d) (fd_answers d)) o Inj U);
+      [right; reflexivity | rewrite Ed; exact R].
+  - rewrite <- Ed in *.
+    apply (fr_exchange_identical_gen 1 false d o Inj U); [right | exact R].
+    apply (fr_exchange_sizeck_size d o Inj U); [rewrite Ed; discriminate | exact R].
+Qed.
+
+(* ---- the cut at the receiver's offset: unconditional (the code) or only when the existing file is longer
+   than the size the receiver works with.  With the guard on the rest in force (>= 0) the outcome is the SAME
+   for everything that can be delivered: when the cut is skipped, the guard has made sure that the data that
+   follows reaches at least to the end of the existing file. *)
+Lemma fr_recv_acks_upper : forall acks size m0 ms rest, (m0 <= size)%Z ->
+  fr_recv_acks size acks m0 = (SDone ms, rest) -> (ms <= size)%Z.
+Proof.
+  induction acks as [|a acks IH]; intros size m0 ms rest Hm R; cbn [fr_recv_acks] in R; [discriminate|].
+  destruct (negb (a_match a)); [inversion R; subst; exact Hm|].
+  destruct (Z.eqb_spec (a_step a) size) as [E|Ne]; [inversion R; subst; lia|].
+  destruct (Z.ltb_spec size (a_step a)); [discriminate|].
+  apply (IH size (a_step a) ms rest); [lia | exact R].
+Qed.
+
+Lemma fr_recv_hash_acks_upper size acks ms rest : (0 <= size)%Z ->
+  fr_recv_hash_acks size acks = (SDone ms, rest) -> (ms <= size)%Z.
+Proof.
+  intros Hs. unfold fr_recv_hash_acks. destruct (Z.eqb_spec size 0); [intro R; inversion R; lia|].
+  apply fr_recv_acks_upper. lia.
+Qed.
+
+Definition rbound (st : rstate) : Prop := (0 <= r_mstep st <= Z.of_nat (length dst))%Z /\ (r_match st = true -> r_mstep st = Z.of_nat (r_off st)).
+
+Lemma recv_hashes_bound : forall msgs st st', rbound st -> recv_hashes B H dst msgs st = ROver st' -> rbound st'.
+Proof.
+  induction msgs as [|m msgs IH]; intros st st' I0 R; cbn [recv_hashes] in R; [discriminate|].
+  destruct m as [hstep h|]; [|inversion R; subst; exact I0].
+  destruct (negb (r_match st)) eqn:Nm; [exact (IH st st' I0 R)|].
+  apply negb_false_iff in Nm. destruct I0 as (Bd & Im). pose proof (Im Nm) as Eo.
+  rewrite step_guard_src_ok in R. cbn [andb] in R.
+  destruct ((hstep - r_mstep st <=? 0)%Z || (Z.of_N B <? hstep - r_mstep st)%Z) eqn:G; [discriminate|].
+  apply orb_false_iff in G. destruct G as [G1 _]. apply Z.leb_gt in G1.
+  destruct (hstep - r_mstep st <? 0)%Z; [discriminate|].
+  destruct (Z.of_nat (r_off st) + (hstep - r_mstep st) <=? Z.of_nat (length dst))%Z eqn:Le; [|discriminate].
+  apply Z.leb_le in Le. refine (IH _ st' _ R). clear R IH.
+  destruct (list_eqb h _); unfold rbound; cbn [r_mstep r_match r_off]; split; try lia; try discriminate; try exact Bd;
+    try (intros _; lia).
+Qed.
+
+Theorem fr_cut_condition_irrelevant sizeck proto4 d :
+  fr_exchange B H 2 2 sizeck proto4 src dst d = fr_exchange B H 2 1 sizeck proto4 src dst d.
+Proof.
+  unfold fr_exchange. destruct dst as [|b0 dst0] eqn:Ed; [reflexivity|]. rewrite <- Ed in *.
+  set (size_r := if proto4 then Z.of_nat (length src) else fd_size d).
+  destruct ((sizeck =? 1)%N && negb proto4 && (0 <? Z.of_nat (length src))%Z && negb (size_r =? Z.of_nat (length src))%Z); [reflexivity|].
+  destruct (recv_hashes B H dst (fd_hashes d) r_init) as [st| | | |] eqn:R; try reflexivity.
+  destruct (negb (fr_is_nil (fr_after_over (fd_hashes d)))); [reflexivity|].
+  destruct (fr_recv_hash_acks (Z.of_nat (Nat.min (length src) (length dst))) (fd_answers d)) as [[ms| |] [|a l]] eqn:Ra; try reflexivity.
+  destruct (ms <? 0)%Z eqn:Neg; [reflexivity|]. apply Z.ltb_ge in Neg.
+  destruct ((sizeck =? 1)%N && (size_r - r_mstep st <? 0)%Z); [reflexivity|].
+  cbn [N.eqb Pos.eqb].
+  assert (Bd : rbound st).
+  { apply (recv_hashes_bound (fd_hashes d) r_init st); [|exact R]. unfold rbound, r_init. cbn. split; [lia | reflexivity]. }
+  destruct Bd as [Bd _].
+  pose proof (fr_recv_hash_acks_upper _ (fd_answers d) ms [] (Nat2Z.is_nonneg _) Ra) as Ub.
+  destruct (0 <=? size_r - r_mstep st)%Z eqn:Ck; cbn [andb].
+  - destruct (Z.eqb_spec (Z.of_nat (length src) - ms) (size_r - r_mstep st)) as [Eq|Ne]; [|reflexivity]. cbn [negb].
+    destruct (size_r <? Z.of_nat (length dst))%Z eqn:Lt; [reflexivity|]. apply Z.ltb_ge in Lt.
+    (* not cut: the data reaches the end of the existing file *)
+    f_equal. f_equal.
+    set (mr := Z.to_nat (r_mstep st)). set (sent := skipn (Z.to_nat ms) src).
+    assert (Ls : length sent = (length src - Z.to_nat ms)%nat) by (unfold sent; apply skipn_length).
+    assert (Hm : (mr <= length dst)%nat) by (unfold mr; lia).
+    assert (Cover : (length dst <= mr + length sent)%nat) by (rewrite Ls; unfold mr; lia).
+    rewrite fr_final_cut by exact Hm.
+    unfold f_write, f_seek. cbn [f_data f_off].
+    replace (mr - length dst)%nat with O by lia. cbn [repeat app].
+    rewrite skipn_all2 by exact Cover. rewrite app_nil_r. reflexivity.
+  - (* the rest is negative: the delivered size lies below the receiver's offset, hence below the existing length: cut in both *)
+    apply Z.leb_gt in Ck. assert (Lt : (size_r <? Z.of_nat (length dst))%Z = true) by (apply Z.ltb_lt; lia).
+    rewrite Lt. reflexivity.
+Qed.
+
+(* the code: guard and cut as pinned above, the SIZE line treated as the source says *)
+Theorem fr_exchange_code_identical proto4 d o :
+  fx_injective -> fx_unforged (fd_hashes d) ->
+  proto4 = true \/ fd_size d = Z.of_nat (length src) \/ Consts.c02_resume_size_guard = 1%N ->
+  fr_exchange_code B H proto4 src dst d = Some o ->
+  fo_mrecv o = fo_msend o /\ fo_final o = src.
+Proof.
+  intros Inj U Sz. unfold fr_exchange_code. rewrite resume_rest_guard_src_ok.
+  pose proof resume_truncates_src_ok as T. apply orb_true_iff in T.
+  destruct T as [T|T]; apply N.eqb_eq in T; rewrite T; [|rewrite fr_cut_condition_irrelevant];
+  (destruct Sz as [P|[S|G]];
+   [apply (fr_exchange_identical_gen _ proto4 d o Inj U); left; exact P
+   |apply (fr_exchange_identical_gen _ proto4 d o Inj U); right; exact S
+   |rewrite G; apply (fr_exchange_identical_sizeck proto4 d o Inj U)]).
+Qed.
+
+End FaultExchange.
